@@ -70,11 +70,8 @@ def _regularize_obj_momentum(
         return args
 
     if isinstance(args, ak.Record):
-        return vector.MomentumObject3D(
-            px=args["px"],
-            py=args["py"],
-            pz=args["pz"],
-        )
+        # any momentum coordinates: (px, py, pz) as well as the (pt, phi, pz) a helix record reports
+        return vector.obj(**{f: args[f] for f in args.fields})
 
     # tuple
     momentum = args
